@@ -297,7 +297,7 @@ example : closePathOK [.wgWait 2, .acq 4 .W false, .mark 3, .acq 8 .W false, .ma
     keeps it (success: `Close` releases it, `close_releases`) or rolls it back — the failure-cleanup defer calls
     `releaseReadLock` before it closes `db.db` and drops the handles. (`sql.DB.Close` only closes idle
     connections; a dropped, un-rolled-back transaction keeps its connection, SQLite's read lock and the
-    descriptors on db/-wal/-shm for the rest of the process.) -/
+    descriptors on the database, WAL and shm files for the rest of the process.) -/
 theorem gen_init_cleanup_releases_read_lock : Gen.Locks.initCleanupReleasesReadLock = true := by decide
 
 /-! ## 5. Snapshot position hand-off (db.go: snapshotPosition / checkpointWithExecutor) -/
